@@ -10,29 +10,65 @@ package mfs
 //@ func (*Directory).Path
 //@   assumed
 //@   ensures result == dirPath(d)
+// abstract tree used by Mv: which names a directory object holds, how many successful edits
+// were made, whether some step answered with an error, and whether a storage-level step failed
+//@ ghost holds(d *Directory, name string) bool
+//@ ghost edits() Int
+//@ ghost failed() bool
+//@ ghost fault() bool
 //@ func lookupDir
 //@   assumed
-//@   ensures err == nil ==> result0 != nil
+//@   modifies failed()
+//@   ensures err == nil ==> result0 != nil && failed() == old(failed())
+//@   ensures err != nil ==> failed()
+// Child: a miss (os.ErrNotExist) is an answer, anything else is a storage fault
 //@ func (*Directory).Child
 //@   assumed
+//@   modifies failed(), fault()
+//@   ensures err == nil ==> holds(d, name) && result0 != nil && (typeis(result0, "*File") || typeis(result0, "*Directory")) && failed() == old(failed()) && fault() == old(fault())
+//@   ensures err != nil ==> failed() && (err == os.ErrNotExist ==> !holds(d, name) && fault() == old(fault())) && (err != os.ErrNotExist ==> fault())
+// AddChild: refuses an existing name without touching anything; otherwise adds it or hits a storage fault
 //@ func (*Directory).AddChild
 //@   assumed
+//@   modifies holds(d, name), edits(), failed(), fault()
+//@   ensures err == nil ==> !old(holds(d, name)) && holds(d, name) && edits() == old(edits()) + 1 && failed() == old(failed()) && fault() == old(fault())
+//@   ensures err != nil ==> holds(d, name) == old(holds(d, name)) && edits() == old(edits()) && failed() && (old(holds(d, name)) ==> fault() == old(fault())) && (!old(holds(d, name)) ==> fault())
+// Unlink: removes an existing name or hits a storage fault
 //@ func (*Directory).Unlink
 //@   assumed
+//@   modifies holds(d, name), edits(), failed(), fault()
+//@   ensures err == nil ==> !holds(d, name) && edits() == old(edits()) + 1 && failed() == old(failed()) && fault() == old(fault())
+//@   ensures err != nil ==> holds(d, name) == old(holds(d, name)) && edits() == old(edits()) && failed() && (old(holds(d, name)) ==> fault())
 //@ func iface FSNode.GetNode
+//@   modifies failed(), fault()
+//@   ensures err == nil ==> failed() == old(failed()) && fault() == old(fault())
+//@   ensures err != nil ==> failed() && fault()
 
-// After a successful Mv the source entry is gone unless source and destination are the
-// same entry of the same directory: the only success path that skips the final Unlink
-// must have established exactly that, and the final Unlink removes the source entry.
+// Mv, against the abstract tree:
+//  - a destination ending in '/' names the directory to move into (it is looked up as given);
+//  - an existing destination directory receives the entry under the source name;
+//  - the node taken from the source is the one added at the destination;
+//  - after a successful Mv the source entry is gone unless source and destination are the same
+//    entry of the same directory (the only success path that skips the final Unlink);
+//  - a failed Mv that met no storage fault has not edited the tree;
+//  - Mv fails only when one of its steps answered with an error.
 //@ func Mv
 //@   prop C19
 //@   arith int
 //@   safety index
 //@   requires[non_empty_dst] len(dst) > 0
 //@   modifies all
+//@   site[trailing_slash_names_the_directory] call:lookupDir#0 : dst[len(dst)-1] == 47 ==> arg1 == dst
+//@   site[source_parent] call:lookupDir#1 : arg1 == res("call:Split#0", 0)
+//@   site[source_entry] call:Directory.Child#0 : arg0 == res("call:lookupDir#1", 0) && arg1 == res("call:Split#0", 1)
 //@   site[skip_unlink_only_for_same_entry] return:nil : dirPath(srcDir) == dirPath(dstDir) && srcFname == dstFname
 //@   site[unlink_the_source] call:Directory.Unlink#1 : arg0 == srcDir && arg1 == srcFname
 //@   site[add_to_destination] call:Directory.AddChild : arg0 == dstDir && arg1 == dstFname && arg2 == nd
+//@   site[into_existing_directory] call:Directory.AddChild : res("call:Directory.Child#1", 1) == nil && typeis(res("call:Directory.Child#1", 0), "*Directory") ==> arg0 == unbox(res("call:Directory.Child#1", 0), "*Directory") && arg1 == srcFname
+//@   site[moved_node_is_the_source_node] call:Directory.AddChild : arg2 == res("invoke:FSNode.GetNode#0", 0) && res("invoke:FSNode.GetNode#0", 1) == nil
+//@   ensures[logical_failure_is_atomic] err != nil && !fault() ==> edits() == old(edits())
+//@   ensures[errors_have_a_cause] err != nil ==> failed()
+//@   ensures[success_edits] err == nil ==> edits() > old(edits())
 
 // ---- C20: lock discipline of File.nodeLock (ghost lockset of the current call chain) ------
 // A sync.RWMutex read lock is not re-entrant: a second RLock by the same call chain blocks
